@@ -8,6 +8,8 @@ written by harness/c14_mixlinear.c (one answer line per case line).
   vol <vol> <mvol> <mvolbase> <pan> <old_vl> <old_vr> <rampsize>   -> vol_l vol_r vl vr delta_l delta_r
   dlt <v> <old> <rampsize>                      -> delta
   pan <fp> <mix> <mono> <surround>              -> voice pan
+  vr <member of struct mixer_voice | paula.* pseudo-member>…
+                                                -> value of each member in a freed voice (`Xmp.MixKernel.resetValue`)
   pp <pan.val> <panbrello> <pan_envelope> <rpv> <it_mode> <mono> <surround> <mix>
                                                 -> pan handed to libxmp_virt_setpan, xc->info_finalpan (`processPan`)
   mst <chn> <modchn> <numtracks> <master> <smix> <root> <muted> <fv>   -> vi->vol
@@ -79,6 +81,12 @@ def answer (ws : List String) : Option String :=
     some s!"{lr.1} {lr.2} {level lr.1} {level lr.2} {rampDelta lr.1 (pInt ovl) (pInt rs)} {rampDelta lr.2 (pInt ovr) (pInt rs)}"
   | ["dlt", v, old, r] => some s!"{rampDelta (pInt v) (pInt old) (pInt r)}"
   | ["pan", fp, mix, mono, sur] => some s!"{voicePan (pInt fp) (pInt mix) (pBool mono) (pBool sur)}"
+  | "vr" :: names =>
+    -- members of a free voice: `vr <member>…` -> value of each member after libxmp_virt_resetvoice (`*` = kept)
+    some (" ".intercalate (names.map fun n =>
+      match (if n.startsWith "paula." then Xmp.MixKernel.paulaResetValue n else Xmp.MixKernel.resetValue n) with
+      | some v => toString v
+      | none => "*"))
   | ["pp", pv, pb, pe, rpv, it, mono, sur, mix] =>
     let p : PanSrc := { panVal := pInt pv, panbrello := pInt pb, penv := pInt pe, rpv := pInt rpv, itMode := pBool it }
     some s!"{processPan p (pInt mix) (pBool mono) (pBool sur)} {infoFinalPan p (pInt mix) (pBool mono) (pBool sur)}"
